@@ -41,6 +41,31 @@ def k1(R, prog):
     # the hand-over is the store of `true` into the successor's flag (a relaxed re-arm of one's own flag is not a hand-over)
     R.guard(K.k1_atomic_order, R, prog, P + '.K1', 'photon::qspinlock::unlock', 'got_lock', 'store', 'release', value=1)
     R.guard(qspin_rearm, R, prog)
+    R.guard(owner_release_under_splock, R, prog)
+
+
+def owner_release_under_splock(R, prog):
+    """K3: apart from the acquiring CAS, the owner word of a mutex is written (cleared or handed over) only inside the mutex's splock
+    critical section - wherever that write is.  lock() holds splock from its last failed try until it is linked into the wait queue;
+    an owner store outside splock can fall into that window, free the mutex and wake nobody."""
+    n = 0
+    for f in sorted([g for g in prog.funcs.values() if g.file.endswith(('thread/thread.cpp', 'thread/thread.h')) and g.blocks], key=lambda g: (g.file, g.line)):
+        if not any(e['k'] == 'call' and 'recv' in e and (f.path(e['recv']) or '').endswith('owner') and
+                   strip_targs(e.get('fn') or '').split('::')[-1] in ('store', 'exchange', 'operator=') for e in f.exprs):
+            continue
+        if f.kind == 'ctor':
+            continue
+        G = K.build_f(R, prog, f)
+        res = an.run(G, [an.LockTracker()])
+        st_owner = lambda ev: (K.atomic_op(ev) or (None, None))[1] in ('store', 'operator=', 'exchange') and (K.atomic_op(ev)[0] or '').endswith('owner')
+        def under(st, ev):
+            base = (K.atomic_op(ev)[0] or '')[:-len('owner')]
+            return an.has_lock(st, base + 'splock')
+        n += K.check_at(R, P + '.K3', G, res, st_owner, under,
+                        key_fn=lambda ev, f=f: '%s.K3:%s:owner-written-under-splock' % (P, f.nname),
+                        describe=lambda ev: 'mutex::owner is cleared / handed over only with that mutex\'s splock held', min_sites=1, what='owner store') or 0
+    if n < 1:
+        R.broken.append('C01.K3: no store to mutex::owner found')
 
 
 def qspin_rearm(R, prog):
